@@ -14,6 +14,12 @@ def run_property(pid, root, tier='quick', seed=0, quiet=False, write_evidence=Tr
     rep = Report(pid, tier=tier, seed=seed, root=root, quiet=quiet)
     try:
         prog = Program(root)
+        from .core import alpha
+        renamed = alpha.normalise(prog)
+        rep.stat('alpha_normalised_functions', len(renamed))
+        if renamed:
+            rep.info('locals renamed to their reference names before analysis (behaviour-preserving): %s' % (
+                '; '.join('%s %s' % (k.split('::')[1], v) for k, v in sorted(renamed.items()))[:600]))
         mod = importlib.import_module('sa.rules.' + pid)
         mod.check(prog, rep)
         rep.stat('modules_parsed', len(prog.modules))
